@@ -5,13 +5,16 @@
 set -u
 VERIF="$(cd "$(dirname "${BASH_SOURCE[0]}")" && pwd)"
 export GOFLAGS=-mod=mod GOPROXY=off GOSUMDB=off GOTOOLCHAIN=local
+ORIG="$(pwd)"
 cd "$VERIF/harness" || exit 2
 mkdir -p "$VERIF/.build"
 if ! go build -o "$VERIF/.build/vsup" ./cmd/vsup 2> "$VERIF/.build/vsup.log"; then
   echo "cannot build the supervisor:"; cat "$VERIF/.build/vsup.log"; exit 2
 fi
 if [ "${1:-}" = "replay" ]; then
-  exec "$VERIF/.build/vsup" -verif "$VERIF" -replay "$2"
+  RP="$2"
+  case "$RP" in /*) ;; *) RP="$ORIG/$RP" ;; esac
+  exec "$VERIF/.build/vsup" -verif "$VERIF" -replay "$RP"
 fi
 ID="${1:?property id}"
 TIER="${2:-${VERIF_TIER:-quick}}"
